@@ -82,6 +82,22 @@ def run_live(name, broken="none"):
     return r
 
 
+def run_block(broken="none", ncalls=2, nsig=2):
+    """spec/XcmBlock.tla: blocking xcm_send as a loop over the XcmCore operations, signals at every wait (C03, C04)"""
+    d = vlib.BUILD + "/cfg"
+    os.makedirs(d, exist_ok=True)
+    path = "%s/block_%s_%d.cfg" % (d, broken, os.getpid())
+    with open(path, "w") as f:
+        f.write("SPECIFICATION FairSpec\nCONSTANTS\n  HdrLen = 4\n  MaxMsg = 2\n  MsgLen = 2\n  NCalls = %d\n  NSig = %d\n  Broken = \"%s\"\n"
+                "INVARIANTS C03_FailNotDelivered C03_FailNoTrace C03_OkHasFrame\nPROPERTIES OkDelivered Returns\nCHECK_DEADLOCK FALSE\n"
+                % (ncalls, nsig, broken))
+    r = vlib.tlc("XcmBlock", path, workers=4, timeout=900, heap="4g", metadir="%s/block.%s.%d" % (vlib.TLCDIR, broken, os.getpid()))
+    os.unlink(path)
+    if r["error"]:
+        raise InternalError("TLC failed on XcmBlock %s:\n%s" % (broken, r["error"]))
+    return r
+
+
 def run_tlsready(framed, broken="none"):
     """spec/XcmTlsReady.tla: the btls readiness decision tree (the operators bound to the code) under an abstract OpenSSL"""
     d = vlib.BUILD + "/cfg"
@@ -102,7 +118,7 @@ PROPS = {
                 tps=["tcp", "ux", "uxf", "tls", "utls", "utlst", "tcp", "ux"], raw=0.0, profile="C01", blocking=0.25),
     "C02": dict(mc=["btcp_oneway", "btcp_inj"], paths=["btcp_oneway"], tps=["btcp", "btls", "btcp"], raw=0.0, profile="C02", blocking=0.35),
     "C03": dict(mc=["tcp_oneway", "ux_oneway", "btcp_oneway"], paths=["tcp_oneway"],
-                tps=["tcp", "ux", "btcp", "uxf", "tls", "utls", "btls", "utlst"], raw=0.0, profile="C03", blocking=0.3),
+                tps=["tcp", "ux", "btcp", "uxf", "tls", "utls", "btls", "utlst"], raw=0.0, profile="C03", blocking=0.3, block=True),
     "C06": dict(mc=["tcp_oneway_inj", "btcp_inj", "ux_twoway"], dev=[("tcp_dev_epipe", "C06_DrainFirst", "epipe_closes")],
                 paths=["tcp_oneway_inj", "btcp_inj"], tps=["tcp", "btcp", "ux", "uxf", "tcp", "tls", "btls", "utls"], raw=0.25, profile="C06"),
     "C07": dict(mc=["tcp_hostile"], paths=["tcp_hostile"], tps=["tcp"], raw=1.0, profile="default"),
@@ -113,7 +129,7 @@ PROPS = {
     "C04": dict(mc=["tcp_cond", "tcp_twoway", "ux_twoway"], paths=["tcp_cond"], mc_quick=["tcp_cond_q", "tcp_twoway"], paths_quick=["tcp_cond_q"],
                 tps=["tcp", "btcp", "ux", "uxf", "tls", "btls", "utls", "utlst"], raw=0.0, profile="C04", blocking=0.25, loop=0.45,
                 live=["live_tcp", "live_tcp_close", "live_btcp", "live_btcp_close", "live_ux", "live_ux_close"], live_broken=["no_pollout", "in_or_out"],
-                tlsready=True),
+                tlsready=True, block=True),
     "C05": dict(mc=["tcp_oneway"], paths=["tcp_oneway"], tps=["tcp", "btcp", "ux", "uxf", "tls", "btls", "utls", "utlst"], raw=0.1,
                 profile="C05", loop=0.2),
 }
@@ -281,6 +297,19 @@ def check(pid, tier, seed, only_random=False, extra=None):
             violations.append(("design", "TLC: %s violated in liveness configuration %s" % (",".join(r["violated"]), name), rp))
         if r["distinct"] < 50:
             raise InternalError("liveness configuration %s explored only %d states (vacuous)" % (name, r["distinct"]))
+    if spec.get("block"):
+        for broken in ("none", "eintr_after_accept"):
+            r = run_block(broken, 2 if tier == "quick" else 3, 2 if tier == "quick" else 3)
+            name = "XcmBlock/" + broken
+            mc_summary[name] = dict(distinct=r["distinct"], generated=r["generated"], violated=r["violated"])
+            if broken == "none":
+                states += r["distinct"]
+                transitions += r["generated"]
+                if r["violated"]:
+                    rp = vlib.save_replay(pid, "tlc_block.txt", r["out"][-20000:])
+                    violations.append(("design", "TLC: %s violated in %s" % (",".join(r["violated"]), name), rp))
+            elif not r["violated"]:
+                raise InternalError("the broken design %s is accepted (vacuous properties)" % name)
     if spec.get("tlsready"):
         for framed, broken in [("TRUE", "none"), ("FALSE", "none"), ("TRUE", "no_pending"), ("FALSE", "no_pending"), ("TRUE", "no_idle_bell")]:
             r = run_tlsready(framed, broken)
